@@ -335,6 +335,15 @@ def directed_specs(op):
 		out.append(dict(base, table={"names": ["k", "v", "w"], "cols": [tk, v, w]}, over=[name("k")], aggs={"sum": [name("v")], "count": [name("w")]}))
 		out.append(dict(base, table={"names": ["k", "v", "w"], "cols": [tk, v, w]}, over=[vec("k")], aggs={"max": [name("v")]}, scalar_over=True))
 		out.append(dict(base, table={"names": ["k", "g", "v"], "cols": [tk, [1, 1, 2, 2, 1, 1], v]}, over=[name("k"), name("g")], aggs={"sum": [name("v")]}))
+	# ONE column asked for both its minimum and its maximum, with the extreme value occurring several times in cells that are equal but distinguishable
+	# (1 / True / 1.0, 0.0 / -0.0, Decimal('2.5') / Decimal('2.50')): min() and max() each return the FIRST of their equal extremes
+	from decimal import Decimal as _D
+	for tv in ([1, True, 1.0, 0, False, 0.0], [True, 1, 1.0, 0.0, -0.0, 0], [0.0, -0.0, 0.0, 5, 5.0, True], [_D("2.5"), _D("2.50"), _D("1"), _D("1.0"), _D("1.00"), _D("3")], [2, 2.0, 1, 7.0, 7, 7.0]):
+		kk = ["a", "a", "a", "b", "b", "b"]
+		out.append(dict(base, table={"names": ["k", "v"], "cols": [kk, tv]}, over=[name("k")], aggs={"min": [name("v")], "max": [name("v")]}))
+		out.append(dict(base, table={"names": ["k", "v"], "cols": [kk, tv]}, over=[name("k")], aggs={"max": [name("v")], "min": [vec("v")]}))
+		out.append(dict(base, table={"names": ["k", "v"], "cols": [kk, tv]}, over=[name("k")], aggs={"max": [name("v"), vec("v")], "min": [name("v")], "sum": [name("v")]}))
+		out.append(dict(base, table={"names": ["k", "v"], "cols": [["a"] * 6, tv]}, over=[name("k")], aggs={"min": [name("v")], "max": [name("v")]}))
 	# an apply function that raises AttributeError for some group
 	out.append(dict(base, table={"names": ["k", "s", "v"], "cols": [k, ["x ", None, " y", "z", "q", None], v]}, over=[name("k")], aggs={"sum": [name("v")]}, apply=[{"out": "st", "col": name("s"), "fn": "strip-first"}]))
 	out.append(dict(base, table={"names": ["k", "s", "v"], "cols": [k, [None, " p", " y", "z", "q", "r"], v]}, over=[name("k")], aggs={}, apply=[{"out": "st", "col": name("s"), "fn": "strip-first"}, {"out": "n", "col": name("v"), "fn": "len"}]))
